@@ -629,14 +629,14 @@ class Array:
             raise ValueError("startindex should be 0 or higher")
         if startindex >= endindex:
             raise ValueError("startindex should be lower than endindex")
+        # parameters may be NumPy scalars of a type too narrow to hold the
+        # frame boundaries (e.g. np.uint8(100)), we calculate with Python ints
+        startindex, endindex = int(startindex), int(endindex)
         nframes, _, remainder = fit_frames(
             totallen=(endindex - startindex),
             chunklen=chunklen,
             steplen=stepsize)
-        # parameters may be NumPy scalars of a type too narrow to hold the
-        # frame boundaries (e.g. np.uint8(100)), we calculate with Python ints
         chunklen, stepsize = int(chunklen), int(stepsize)
-        startindex, endindex = int(startindex), int(endindex)
         framestart = startindex
         frameend = framestart + chunklen
         for _ in range(nframes):
